@@ -653,8 +653,8 @@ def run(ctx):
     ctx.trusted += ['harness/fake_lifx.py (simulated lifxlan layer; lifxlan package: %s)' % fake_lifx.ensure_lifxlan()]
     model_ok = ctx.model_runnable
     thorough = ctx.thorough()
-    n_pops = 110 if thorough else 30
-    scripts_per_pop = 10 if thorough else 6
+    n_pops = 45 if thorough else 24
+    scripts_per_pop = 8 if thorough else 6
     upto = 4 if thorough else 3
 
     spec_items = []        # Coq terms `mkobs ...`
@@ -846,6 +846,7 @@ def run(ctx):
         for i in sorted(ddiffs)[:3]:
             ctx.broken_tie('correspondence', 'rediscovery vs model', {'case': disc_info[i], 'model': ddiffs[i][:1500]})
         ctx.extra['model_cases'] = sum(len(g['runs']) + 1 for g in groups) + len(disc_model_items)
+        retry_direct(ctx)
         ctx.stage('model (coq)')
     ctx.extra.update(stats)
     ctx.extra['populations'] = n_pops
@@ -853,6 +854,58 @@ def run(ctx):
     ctx.extra['exhaustive_note'] = ('fault plans are exhaustive (every prefix pattern per request) for the %d scripts with at most %d '
                                     'requests; discovery plans exhaustive for the small networks counted in discovery_exhaustive_networks'
                                     % (stats['plans_exhaustive_scripts'], upto))
+
+
+def retry_direct(ctx):
+    """bardolph.lib.retry.tries against Lights/Retry.tries: every bound 0..5 and every outcome
+    stream of length <= 6 (beyond the end every attempt succeeds)."""
+    from bardolph.lib.retry import tries
+
+    class Boom(Exception):
+        pass
+    cases = [(n, list(bits)) for n in range(0, 6) for k in range(0, 7) for bits in itertools.product([True, False], repeat=k)]
+    got = []
+    for n, stream in cases:
+        state = {'i': 0, 'outs': []}
+
+        @tries(n, Boom, 0)
+        def call():
+            i = state['i']
+            state['i'] += 1
+            ok = stream[i] if i < len(stream) else True
+            state['outs'].append(ok)
+            if not ok:
+                raise Boom('attempt %d' % i)
+            return 1
+        try:
+            r = call()
+            got.append('%s%d,%d,%d,%s' % ('G' if r == 0 else 'A', r, state['i'], max(0, len(stream) - state['i']),
+                                          ''.join('T' if o else 'F' for o in state['outs'])))
+        except Exception as ex:   # pragma: no cover
+            got.append('X' + type(ex).__name__)
+    files = ['Eval vm_compute in (model_tries_cases %s).\n'
+             % coq_list(['(%d%%nat, %s)' % (n, coq_list(['true' if b else 'false' for b in st])) for n, st in part])
+             for part in chunks(cases, 400)]
+    res = common.run_cases('c12try', 'From Bardolph Require Import Lights.Retry Run.C12Model.', files)
+    model = []
+    for ok, strs, log in res:
+        if not ok or len(strs) != 1:
+            raise RuntimeError('coq evaluation of model_tries_cases failed: %s' % log[-800:])
+        model += strs[0].split(';')[:-1]
+    bad = 0
+    for (n, st), g, m in zip(cases, got, model):
+        ctx.count()
+        if any(not b for b in st[:max(n, 1)]):
+            ctx.nontriv(('tries', n, tuple(st)))
+        if g != m:
+            bad += 1
+            if bad <= 2:
+                ctx.broken_tie('correspondence', 'retry.tries vs model', {'num_tries': n, 'outcomes': st, 'implementation': g, 'model': m})
+        attempts = int(g.split(',')[1]) if g[0] in 'AG' else 0
+        if g[0] in 'AG' and attempts > n and n >= 1:
+            ctx.counterexample('C12/tries-exceeds-its-bound', 'tries(%d, ...) made %d attempts on outcomes %s' % (n, attempts, st),
+                               {'num_tries': n, 'outcomes': st})
+    ctx.extra['retry_direct_cases'] = len(cases)
 
 
 def brief(pop):
@@ -896,6 +949,12 @@ def discovery_cases(ctx, thorough):
     spec_items, model_items, info = [], [], {}
     did = 0
     n_nets = 120 if thorough else 24
+    directed = [
+        # one known light, then a network with one new device of each kind: every prefix pattern
+        ([SEED_POP[0]], [dict(SEED_POP[1])]),
+        ([SEED_POP[0]], [dict(SEED_POP[2])]),
+        ([SEED_POP[0]], [dict(SEED_POP[3])]),
+    ]
     for ni in range(n_nets):
         n1 = rng.choice([1, 1, 2, 3])
         net1 = gen_population(rng, n1)
@@ -915,6 +974,10 @@ def discovery_cases(ctx, thorough):
             extra = gen_population(rng, 1)[0]
             extra.update({'id': len(net1), 'name': name})
             net2.append(extra)
+        force_exhaustive = False
+        if ni < len(directed):
+            net1, net2 = directed[ni]
+            force_exhaustive = thorough or ni < 2
         env = Env(net1)
         if env.discovery['end'] != 'T':
             judge_discovery(ctx, env, net1, set(), env.discovery)
@@ -924,7 +987,7 @@ def discovery_cases(ctx, thorough):
         base = probe.discover(fake_lifx.Network(net2), set())
         reqs = [(r['label'], r['kind']) for r in base['requests']]
         plans = []
-        if len(reqs) <= 9 and (thorough or ni % 3 == 0):
+        if force_exhaustive or (len(reqs) <= 9 and ni >= len(directed) and (thorough or ni % 8 == 3)):
             for ks in itertools.product(*[prefix_choices(k) for (_, k) in reqs]):
                 if any(ks):
                     plans.append(prefix_plan(reqs, ks))
